@@ -1,6 +1,6 @@
 //! C01 / C02 / C13 (request side): build each of the eight request kinds through the public
 //! builders, capture what the HTTP client is handed.  C03: the authorization URL.
-use crate::exec::block_on;
+use crate::exec::{parse_variant, Delay};
 use crate::kinds::FakeError;
 use crate::proto::*;
 use oauth2::basic::*;
@@ -88,7 +88,11 @@ pub fn run(ws: &[&str]) -> String {
     if ws.len() != 15 {
         return BAD.into();
     }
-    let asyncv = ws[0] != "sync";
+    let variant = match parse_variant(ws[0]) {
+        Some(v) => v,
+        None => return BAD.into(),
+    };
+    let asyncv = !variant.is_sync();
     let kind = ws[1];
     let auth = if ws[2] == "B" { AuthType::BasicAuth } else { AuthType::RequestBody };
     let (id, secret, urlorig, defred) = match (untok_str(ws[3]), untok_opt_str(ws[4]), untok_str(ws[5]), untok_opt_str(ws[9])) {
@@ -119,7 +123,7 @@ pub fn run(ws: &[&str]) -> String {
     };
     let async_client = |r: HttpRequest| {
         captured.borrow_mut().push(r);
-        async { Ok(canned()) as Result<HttpResponse, FakeError> }
+        Delay { n: variant.k(), v: Some(Ok(canned()) as Result<HttpResponse, FakeError>) }
     };
 
     macro_rules! finish {
@@ -129,7 +133,7 @@ pub fn run(ws: &[&str]) -> String {
                 req = req.add_extra_param(k.clone(), v.clone());
             }
             if asyncv {
-                let _ = block_on(req.request_async(&async_client));
+                let _ = variant.drive(req.request_async(&async_client));
             } else {
                 let _ = req.request(&sync_client);
             }
@@ -214,7 +218,7 @@ pub fn run(ws: &[&str]) -> String {
                         req = req.add_extra_param(k.clone(), v.clone());
                     }
                     if asyncv {
-                        let _ = block_on(req.request_async(&async_client, |_d: Duration| async {}, None));
+                        let _ = variant.drive(req.request_async(&async_client, |_d: Duration| Delay { n: variant.k(), v: Some(()) }, None));
                     } else {
                         let _ = req.request(&sync_client, |_d: Duration| {}, None);
                     }
@@ -232,7 +236,7 @@ pub fn run(ws: &[&str]) -> String {
                 req = req.add_extra_param(k.clone(), v.clone());
             }
             if asyncv {
-                let _: Result<StandardDeviceAuthorizationResponse, _> = block_on(req.request_async(&async_client));
+                let _: Result<StandardDeviceAuthorizationResponse, _> = variant.drive(req.request_async(&async_client));
             } else {
                 let _: Result<StandardDeviceAuthorizationResponse, _> = req.request(&sync_client);
             }
